@@ -124,7 +124,9 @@ def judgeDict (i : Intern) (setTok : String) (k : Option Nat) (qsTok : String) (
     let stale := r1 ≠ s1 ∨ r2 ≠ s2
     (i', { model := modelOut,
            fails := (if lost.isEmpty then [] else ["C17:resolvable-before-unresolvable-after-load"]) ++
-                    (if stale then ["C17:lookup-differs-from-log-resolution-after-later-load"] else []),
+                    (if stale then ["C17:lookup-differs-from-log-resolution-after-later-load",
+                                    -- the decoder types every AVP by this very lookup (C01: for all dictionaries)
+                                    "C01:typing-the-decoder-would-use-is-not-the-dictionary's-after-a-later-load"] else []),
            tags := [s!"mono files={fs.length} k={k} queries={qs.length}"] })
 
 /-- `codec findn app=<a> sets=<specA>^<specB> name=<n> mode=<first|all> <tree> => <r1> | <r2>`:
